@@ -21,3 +21,15 @@ std::uint64_t GetInjectedCount() noexcept;
   yaclib::InjectFault();                                                                                               \
   statement;                                                                                                           \
   yaclib::InjectFault()
+
+#ifdef YACLIB_VERIF
+#  include <yaclib/fault/verif_hook.hpp>
+#  undef YACLIB_INJECT_FAULT
+#  define YACLIB_INJECT_FAULT(statement)                                                                               \
+    yaclib::InjectFault();                                                                                             \
+    if (::yaclib::verif::gHooks != nullptr && ::yaclib::verif::gHooks->op_now != nullptr) {                             \
+      ::yaclib::verif::gHooks->op_now();                                                                               \
+    }                                                                                                                  \
+    statement;                                                                                                         \
+    yaclib::InjectFault()
+#endif
